@@ -349,8 +349,27 @@ impl<Db: Database> StorageManager<Db> {
 
     /// Retrieve a stored record from the database.
     pub async fn get<St: Storable>(&self, id: &St::StorageKey) -> Result<DbRecord, StorageError> {
-        if let Some(result) = self.get_from_cache_only::<St>(id).await {
-            return Ok(result);
+        // we're in a transaction, meaning the object _might_ be newer and therefore we should try and read if from the transaction
+        // log instead of the raw storage layer
+        if self.is_transaction_active() {
+            if let Some(result) = self.transaction.get::<St>(id) {
+                return Ok(result);
+            }
+        }
+        self.get_committed::<St>(id).await
+    }
+
+    /// Retrieve a stored record as it was last committed: from the object cache or the database,
+    /// ignoring the records pending in an open transaction.
+    pub async fn get_committed<St: Storable>(
+        &self,
+        id: &St::StorageKey,
+    ) -> Result<DbRecord, StorageError> {
+        // check for a cache hit
+        if let Some(cache) = &self.cache {
+            if let Some(result) = cache.hit_test::<St>(id).await {
+                return Ok(result);
+            }
         }
 
         // cache miss, read direct from db
